@@ -581,8 +581,18 @@ func (x *tr) constNat(e ast.Expr, en env) (string, bool) {
 			}
 		}
 	case *ast.SelectorExpr:
-		if isSel(e, "math", "MaxUint32") {
-			return "4294967295", true
+		if v, ok := mathConst(e); ok {
+			return v, true
+		}
+	}
+	return "", false
+}
+
+// mathConst: the untyped integer constants of package math the decision layer compares with
+func mathConst(e ast.Expr) (string, bool) {
+	for name, v := range map[string]string{"MaxUint8": "255", "MaxUint16": "65535", "MaxUint32": "4294967295"} {
+		if isSel(e, "math", name) {
+			return v, true
 		}
 	}
 	return "", false
@@ -746,8 +756,8 @@ func (x *tr) expr(e ast.Expr, en env, want string) val {
 		}
 		fail("identifier %s is not bound (a parameter, view or local is missing, or it is set by a skipped statement)", e.Name)
 	case *ast.SelectorExpr:
-		if isSel(e, "math", "MaxUint32") {
-			return val{"4294967295", "untyped"}
+		if v, ok := mathConst(e); ok {
+			return val{v, "untyped"}
 		}
 		// bare element of a slice (`h := s[i]` handled in assign); otherwise unknown field
 		fail("no view for %s", src(e))
@@ -2208,6 +2218,10 @@ func main() {
 	}
 	// the stateful engine (storage state machine) writes <out>/TransStorage.lean
 	writeStateful(*out)
+	// the slab engine (array slab restructuring) writes <out>/TransSlabs.lean
+	writeSlabs(*out)
+	// the object engine (slab-level restructuring of the maps) writes <out>/TransMapSlabs.lean
+	writeObjMaps(*out)
 	path := filepath.Join(*out, "Trans.lean")
 	content := b.String()
 	if old, err := os.ReadFile(path); err == nil && string(old) == content {
